@@ -26,11 +26,12 @@ type srvDesc struct {
 	Max   int  `json:"max"`   // MaxVersion (771 / 772)
 	HRR   bool `json:"hrr"`   // CurvePreferences = [P-384]: every parrot used here needs a HelloRetryRequest
 	Keys  int  `json:"keys"`  // which ticket key / ticket store the server owns
-	Store bool `json:"store"` // true: WrapSession/UnwrapSession label store; false: SetSessionTicketKeys
+	Store  bool `json:"store"`  // true: WrapSession/UnwrapSession label store; false: SetSessionTicketKeys
+	Cookie int  `json:"cookie"` // > 0: the HelloRetryRequest carries a cookie of this many bytes (verif hook)
 }
 
 type opDesc struct {
-	Op    string `json:"op"`    // SetCache Preset BuildNoSess Build SetTicket SetPsk Handshake
+	Op    string `json:"op"`    // SetCache Preset BuildNoSess Build SetRandom SetTicket SetPsk Handshake
 	Arg   string `json:"arg"`   // SetTicket: init|uninit|nil   SetPsk: real|fake|uninit|nil
 	From  string `json:"from"`  // cache the injected session is taken from
 	Forge bool   `json:"forge"` // rebuild the session with MakeClientSessionState under Label
@@ -121,6 +122,13 @@ func (w *world) serverConfig(cd *connDesc, wrapped *[][]byte) *tls.Config {
 	cfg := &tls.Config{Certificates: []tls.Certificate{certFor(cd.Name)}, MaxVersion: uint16(cd.Srv.Max), Time: w.clock(cd.Clock)}
 	if cd.Srv.HRR {
 		cfg.CurvePreferences = []tls.CurveID{tls.CurveP384}
+	}
+	if cd.Srv.Cookie > 0 {
+		ck := make([]byte, cd.Srv.Cookie)
+		for i := range ck {
+			ck[i] = byte(0xc0 + i%32)
+		}
+		tls.VerifSetOverride(cfg, &tls.VerifOverride{HRRCookie: ck})
 	}
 	if cd.Srv.Store {
 		id := cd.Srv.Keys
@@ -357,6 +365,12 @@ func runConn(w *world, sid, k int, cd *connDesc) map[string]any {
 			switch od.Op {
 			case "SetCache":
 				u.SetSessionCache(mainCache)
+			case "SetRandom": // an edit of the built hello that the documentation allows (SetClientRandom)
+				r := make([]byte, 32)
+				for j := range r {
+					r[j] = byte(0x50 + j)
+				}
+				err = u.SetClientRandom(r)
 			case "Preset":
 				if custom == nil {
 					panic("harness: Preset on a predefined ClientHelloID")
